@@ -70,7 +70,9 @@ def observe (st : St) : String :=
   let links := (List.range st.nslots).filterMap fun s =>
     if (st.chans s).acked then some (showChan st.npubs s (st.chans s)) else none
   let term := (List.range st.npubs).filter fun p => (st.pubs p).terminated
-  s!"ok {maps} L=" ++ (if links.isEmpty then "-" else " ".intercalate links) ++ s!" T={showNats term} RT={st.rootTerminated}"
+  let pend := (List.range st.npubs).filterMap fun p =>
+    if (st.pubs p).alive then some s!"{p}:{if p == 0 then st.rootq.length else (st.pubs p).cmdq.length}" else none
+  s!"ok {maps} L=" ++ (if links.isEmpty then "-" else " ".intercalate links) ++ s!" T={showNats term} RT={st.rootTerminated} Q=" ++ (if pend.isEmpty then "-" else ",".intercalate pend)
 
 def words (s : String) : List String := (s.splitOn " ").filter (· ≠ "")
 
